@@ -69,6 +69,9 @@ U.ZONES["Z5"] = (z5, z5_size)
 
 # ------------------------------------------------------------------ Z6: specification boundaries
 # every numeric limit the specification states, swept across the boundary, in three contexts
+_P = "!\"#$%&'()*+,-./:;<=>?@[\\]^_`{|}~"
+
+
 def _b(n):
     return [
         "#" * n + " h",                                   # ATX: 1..6
@@ -117,6 +120,23 @@ def _b(n):
         "<" + "div" + " a" * n + ">",
         "<!" + "-" * n + " c " + "-" * n + ">",
         "a" * n + "_b_" + "c" * (n % 3),
+        # lexical edges
+        "<a@" + "b" * (n * 2) + "_c>",                    # e-mail autolink: long host label then an invalid character
+        "<a@" + "b" * n + "." + "c" * n + ">",
+        "[a](/x%" + "2f0"[: n % 4] + ")",                 # percent sequence at the very end of a destination
+        "[r]: /x%" + "f0"[: n % 3] + "\n\n[r]",
+        "![i](</x%" + "2"[: n % 2] + "> 't')",
+        "\\" + _P[n % 32] + " a",                         # backslash escape of every ASCII punctuation character
+        "[a](/u\\" + _P[n % 32] + ")",
+        "a" + _P[n % 32] + "*b*" + _P[(n * 7) % 32] + "c",  # flanking next to punctuation
+        _P[n % 32] + "_b_" + _P[n % 32],
+        "**a" + _P[n % 32] + "**b",
+        "[a" + _P[n % 32] + "]: /u\n\n[a" + _P[n % 32] + "]",
+        "<b " + "x" + "=" + ['"v"', "'v'", "v", '"v', "", "=", "'"][n % 7] + ">",
+        "&" + ["amp", "lt", "nbsp", "copy", "AElig", "Dcaron", "frac34", "HilbertSpace", "ngE", "xyz", "AMP", "#0", "#x0"][n % 13] + ";",
+        "[a](" + ["/u", "<u>", "<u v>", "u v", "<u\n>", "", "<>", "\\(", "(", "a(b)c", "a(b", "<a>b"][n % 12] + ")",
+        "[a](/u " + ['"t"', "'t'", "(t)", '"t', "'t\"", "(t))", '"a\\"b"', "t", '""', "( )"][n % 10] + ")",
+        "`" * (n % 4 + 1) + " " * (n // 4 % 3) + "c" + " " * (n // 12 % 3) + "`" * (n % 4 + 1),
     ]
 
 
@@ -141,6 +161,124 @@ def z6_size():
 
 
 U.ZONES["Z6"] = (z6, z6_size)
+
+
+# ------------------------------------------------------------------ Z7: rule-trigger documents
+# snippets written to make each fix-capable / reporting rule fire, with repetition and in combination
+def _snip(r):
+    k = r.below(30)
+    w = lambda: r.choice(["alpha", "beta", "gamma", "x", "width", "height"])  # noqa: E731
+    sp = lambda a, b: " " * r.randint(a, b)  # noqa: E731
+    if k == 0:
+        lv = [r.randint(1, 5) for _ in range(r.randint(2, 4))]
+        out = []
+        for x in lv:
+            out += ["#" * x + " " + w() + r.choice(["", "", ".", "?", " #"]), ""]
+        return out[:-1]
+    if k == 1:
+        return [r.choice("*-+") + " " + w() for _ in range(r.randint(2, 4))]
+    if k == 2:
+        m = r.choice("*-+")
+        return [m + " a", sp(0, 1) + m + " b", sp(0, 3) + r.choice("*-+") + " c", m + " d"]
+    if k == 3:
+        return ["* a", sp(2, 5) + "* nested", sp(2, 7) + "* more", "* b"]
+    if k == 4:
+        return [w() + " " + w() + sp(1, 4), w() + sp(0, 3), w()]
+    if k == 5:
+        return [w() + "\t" + w(), "\t" + w() if r.chance(0.3) else w() + " \t" + w()]
+    if k == 6:
+        return [w()] + [""] * r.randint(2, 4) + [w()]
+    if k == 7:
+        return ["#" + sp(1, 3) + w() + r.choice(["", sp(1, 3) + "#", " #"])]
+    if k == 8:
+        return [sp(1, 3) + "# " + w()] if r.chance(0.6) else [sp(0, 2) + w(), sp(0, 2) + r.choice(["===", "---"])]
+    if k == 9:
+        return [">" + sp(1, 3) + w(), ">" + sp(1, 3) + w() + " " + w(), r.choice([">", "> ", ">  "]) + w()]
+    if k == 10:
+        st = r.choice([0, 1, 1, 2, 5])
+        nums = [st + r.choice([0, 1, 1, 2]) * i for i in range(r.randint(2, 4))]
+        d = r.choice(".)")
+        return [f"{x}{d}" + sp(1, 3) + w() for x in nums]
+    if k == 11:
+        return [r.choice("-*+") + sp(1, 4) + w(), r.choice(["1.", "10."]) + sp(1, 3) + w()]
+    if k == 12:
+        f = r.choice(["```", "~~~"])
+        pre = [w()] if r.chance(0.6) else []
+        post = [w()] if r.chance(0.6) else []
+        return pre + [f + r.choice(["", "py", ""]), "code" + sp(0, 2), f] + post
+    if k == 13:
+        return [r.choice(["---", "***", "___", "- - -"]), "", r.choice(["---", "***", "* * *"])]
+    if k == 14:
+        parts = []
+        for _ in range(r.randint(1, 3)):
+            m = r.choice(["*", "**", "_"])
+            parts.append(w() + " " + m + sp(0, 2) + w() + sp(0, 2) + m)
+        return [" ".join(parts) + " " + w() + r.choice(["", "."])]
+    if k == 15:
+        parts = []
+        for _ in range(r.randint(1, 3)):
+            bt = "`" * r.choice([1, 1, 2])
+            inner = r.choice([w(), "`" + w() + "`" if len(bt) == 2 else w(), w() + " " + w()])
+            parts.append(bt + sp(0, 2) + inner + sp(0, 2) + bt)
+        return [w() + " " + " and ".join(parts)]
+    if k == 16:
+        return [" ".join("[" + sp(0, 2) + w() + sp(0, 2) + "](/" + w() + ")" for _ in range(r.randint(1, 3)))]
+    if k == 17:
+        a = ["```", "code", "```"] if r.chance(0.5) else ["    code", "    more"]
+        b = ["~~~", "code", "~~~"] if r.chance(0.5) else ["    other"]
+        return a + ["", w(), ""] + b
+    if k == 18:
+        return ["![](/" + w() + ".png) ![alt](/x.png) [" + w() + "]() [e](#)"]
+    if k == 19:
+        return ["<div>" + w() + "</div>", "", w() + " <b>" + w() + "</b> <br/>"]
+    if k == 20:
+        return [w() + " https://" + w() + ".example.com/" + w() + " (reversed)[link]"]
+    if k == 21:
+        return ["#" + w(), "", "##" + w() + " ##", "", "## " + w() + "##"]
+    if k == 22:
+        return [" ".join(w() for _ in range(r.randint(14, 24)))]
+    if k == 23:
+        return ["$ " + w(), "", "```", "$ ls", "$ pwd", "```"]
+    if k == 24:
+        return ["**" + w() + " " + w() + "**", "", "*" + w() + "*"]
+    if k == 25:
+        return ["# " + w(), "", "# " + w(), "", "## " + w(), "", "## " + w()]
+    if k == 26:
+        return ["1. a", "", "   " + w(), "", "1. b", "   - n", "     - m"]
+    if k == 27:
+        return ["> " + w(), "", "> " + w(), ">", ">", "> " + w()]
+    if k == 28:
+        return ["- [ ] " + w(), "- [x] " + w(), "", "term " + w() + "  ", "next"]
+    return [w() + " " + w(), w()]
+
+
+Z7_SIZE = 80000
+
+
+def z7(i):
+    r = R(0x7000000 + i)
+    blocks = []
+    for _ in range(r.choice([1, 2, 2, 3, 3, 4])):
+        blocks.append(_snip(r))
+    lines = []
+    for b in blocks:
+        if lines and r.chance(0.8):
+            lines.append("")
+        lines.extend(b)
+    wrap = r.below(12)
+    if wrap == 0:
+        lines = [(">" if x == "" else "> " + x) for x in lines]
+    elif wrap == 1:
+        lines = ["- " + lines[0]] + [("" if x == "" else "  " + x) for x in lines[1:]]
+    elif wrap == 2:
+        lines = ["1. " + lines[0]] + [("" if x == "" else "   " + x) for x in lines[1:]]
+    s = "\n".join(lines)
+    if r.chance(0.85):
+        s += "\n"
+    return s
+
+
+U.ZONES["Z7"] = (z7, lambda: Z7_SIZE)
 
 
 def content_hash():
